@@ -304,7 +304,7 @@ func (c *Client) director() (address string, t *target, err error) {
 		seq := w.seq
 		c.lock.Lock()
 		delete(c.pending, seq)
-		vhook("k.timeout", c, nil, seq, 0)
+		vhook("k.timeout", c, nil, seq, uint64(len(c.pending)))
 		c.lock.Unlock()
 		err = ErrTimeout
 	}
